@@ -101,5 +101,35 @@ int main(int argc, char **argv) {
           for (int j = 0; j < 7; j++) { fprintf(v_out, "{\"op\":\"scrypt_nr\",\"ops\":%llu,\"mem\":%zu,\"ret\":%d,", BO[j], BM[j], crypto_pwhash_scryptsalsa208sha256_str_needs_rehash(s, BO[j], BM[j])); v_emit_bytes("str", (const unsigned char *) s, L); fputs("}\n", v_out); } }
         for (int j = 0; j < 6; j++) { unsigned long long o2 = OPS[(i + j) % 6]; size_t m2 = MEM[(i + j) % 6]; memcpy(s2, s, L + 1); if (j == 3) s2[3] = '!'; if (j == 4) s2[L - 1] = 0; if (j == 5) s2[7] = '!';
             fprintf(v_out, "{\"op\":\"scrypt_nr\",\"ops\":%llu,\"mem\":%zu,\"ret\":%d,", o2, m2, crypto_pwhash_scryptsalsa208sha256_str_needs_rehash(s2, o2, m2)); v_emit_bytes("str", (const unsigned char *) s2, strlen(s2)); fputs("}\n", v_out); } } }
+    /* ---- $7$ parameter block with digits from every class of the alphabet ./0-9A-Za-z:
+     * (a) crafted strings judged by needs_rehash only (no hashing, so any cost is free): p = every first-digit value,
+     *     two-digit values, r and N_log2 digits; with the limits that select exactly these parameters and limits one off;
+     * (b) cheap foreign strings (N = 2..8, r = 1..2) with p digits from each class, hashed with the low-level API and
+     *     encoded here, presented to str_verify with the right and a wrong password. */
+    { static const char it[] = "./0123456789ABCDEFGHIJKLMNOPQRSTUVWXYZabcdefghijklmnopqrstuvwxyz";
+      char s[128]; unsigned char salt43[43];
+      #define ENC5(dst, v) do { uint32_t vv = (v); for (int q_ = 0; q_ < 5; q_++) { (dst)[q_] = it[vv & 63]; vv >>= 6; } } while (0)
+      for (unsigned pp = 1; pp <= (full ? 140u : 70u); pp += (pp < 66 ? 1 : 13)) {
+          vrng_bytes(&R, salt43, 43); memcpy(s, "$7$", 3); s[3] = it[14]; ENC5(s + 4, 8); ENC5(s + 9, pp);
+          for (int j = 0; j < 43; j++) s[14 + j] = it[salt43[j] & 63]; s[57] = '$'; for (int j = 0; j < 43; j++) s[58 + j] = it[(salt43[j] >> 2) & 63]; s[101] = 0;
+          unsigned long long ops = (unsigned long long) pp * 8ULL * 16384ULL * 4ULL; if (ops >= 2147483648ULL) continue;
+          unsigned long long oo[3] = { ops, ops - 8ULL * 16384ULL * 4ULL, ops + 8ULL * 16384ULL * 4ULL };
+          for (int j = 0; j < (pp % 7 == 0 || pp < 3 ? 3 : 1); j++) { if (oo[j] == 0 || oo[j] >= 2147483648ULL) continue;
+              fprintf(v_out, "{\"op\":\"scrypt_nr\",\"ops\":%llu,\"mem\":%d,\"ret\":%d,", oo[j], 16777216, crypto_pwhash_scryptsalsa208sha256_str_needs_rehash(s, oo[j], 16777216)); v_emit_bytes("str", (const unsigned char *) s, 101); fputs("}\n", v_out); } }
+      for (unsigned d = 0; d < 64; d += (full ? 1 : 3)) {       /* r digit and N_log2 digit */
+          memcpy(s, "$7$", 3); s[3] = it[d]; ENC5(s + 4, 8); ENC5(s + 9, 1); memset(s + 14, 'x', 87); s[57] = '$'; s[101] = 0;
+          unsigned long long mem = d >= 1 && d <= 19 ? 1024ULL << (d + 1) : 16777216ULL, ops = mem / 32 > 32768 ? mem / 32 : 32768;
+          fprintf(v_out, "{\"op\":\"scrypt_nr\",\"ops\":%llu,\"mem\":%llu,\"ret\":%d,", ops, mem, crypto_pwhash_scryptsalsa208sha256_str_needs_rehash(s, ops, (size_t) mem)); v_emit_bytes("str", (const unsigned char *) s, 101); fputs("}\n", v_out);
+          s[3] = it[14]; ENC5(s + 4, d);
+          fprintf(v_out, "{\"op\":\"scrypt_nr\",\"ops\":%d,\"mem\":%d,\"ret\":%d,", 524288, 16777216, crypto_pwhash_scryptsalsa208sha256_str_needs_rehash(s, 524288, 16777216)); v_emit_bytes("str", (const unsigned char *) s, 101); fputs("}\n", v_out); }
+      static const unsigned FP[] = { 40, 12, 2, 63, 38, 1, 104 }; static const unsigned FN[] = { 1, 2, 1, 1, 3, 2, 1 }, FR[] = { 1, 1, 2, 1, 1, 2, 1 };
+      for (int i = 0; i < (full ? 7 : 2); i++) { unsigned char h[32]; const char *pw = "correct horse";
+          vrng_bytes(&R, salt43, 43); memcpy(s, "$7$", 3); s[3] = it[FN[i]]; ENC5(s + 4, FR[i]); ENC5(s + 9, FP[i]);
+          for (int j = 0; j < 43; j++) s[14 + j] = it[salt43[j] & 63]; s[57] = '$';
+          crypto_pwhash_scryptsalsa208sha256_ll((const uint8_t *) pw, 13, (const uint8_t *) s + 14, 43, 1ULL << FN[i], FR[i], FP[i], h, 32);
+          { int o = 58; for (int j = 0; j < 32;) { uint32_t v = 0, bits = 0; do { v |= (uint32_t) h[j++] << bits; bits += 8; } while (bits < 24 && j < 32); for (uint32_t b2 = 0; b2 < bits; b2 += 6) { s[o++] = it[v & 63]; v >>= 6; } } s[o] = 0; }
+          for (int w = 0; w < 3; w++) { char s2[128]; memcpy(s2, s, 102); const char *pw2 = w == 1 ? "correct horsf" : pw; if (w == 2) s2[60] = (char) (s2[60] == 'A' ? 'B' : 'A');
+              int v = crypto_pwhash_scryptsalsa208sha256_str_verify(s2, pw2, 13);
+              fprintf(v_out, "{\"op\":\"scrypt_foreign\",\"v\":%d,", v); v_emit_bytes("pwd", (const unsigned char *) pw2, 13); fputc(',', v_out); v_emit_bytes("str", (const unsigned char *) s2, strlen(s2)); fputs("}\n", v_out); } } }
     v_close(); return 0;
 }
